@@ -16,10 +16,11 @@ import SqiProofs.C17.Sqrt3
 import SqiProofs.C17.Rand
 import SqiProofs.C17.Cornacchia
 import SqiProofs.C17.Conv
+import SqiProofs.C17.Kernel
 import SqiProofs.Primes
 
 namespace SqiProps.C17
-open SqiModel.Intbig SqiModel.NumberTheory SqiProofs.C17
+open SqiModel.Intbig SqiModel.NumberTheory SqiModel.Kernels SqiProofs.C17
 
 /-! ## 1. Division and reduction conventions (all integers, divisor ≠ 0 exactly as GMP requires) -/
 
@@ -387,5 +388,48 @@ theorem two_adic_valuation_spec_partial (x : Int) (h : x % 2 ^ 32 ≠ 0) :
 theorem two_adic_valuation_truncates (x : Int) (h : x % 2 ^ 32 = 0) : twoAdicValuationOfIbz x = 0 := by
   rw [twoAdicValuationOfIbz_eq, if_pos h]
 example : twoAdicValuationOfIbz (2 ^ 32) = 0 ∧ (2 : Int) ^ 32 ∣ 2 ^ 32 ∧ twoAdicValuationOfIbz 48 = 4 := by decide
+
+/-! ## 8. Kernels modulo a prime and 2×2 inverses modulo m
+
+`ibz_4x4_right_ker_mod_prime` / `ibz_4x5_right_ker_mod_prime` return 1 only when the elimination finds a
+kernel of dimension exactly 1.  Proved (for EVERY prime p, EVERY integer matrix, generic in rows × cols):
+whenever a vector is returned it is non-zero modulo p and M·v ≡ 0 (mod p) — invariant of the elimination
+(kernel inclusion, pivot columns, pivot-free rows), by induction over the columns.
+NOT proved (partial): "dimension-1 kernel ⇒ a vector is returned" (completeness) and absence of the `ub` outcome
+(pivot always invertible) — both are checked by the correspondence run against an independent rank computation.
+The Howell-form routine `ibz_4x4_right_ker_mod_power_of_2` (matkermod.c) has no model and no theorem: oracle-tested
+only (see notes/C17.md). -/
+
+theorem ker_mod_prime_sound (pn : Nat) (hp : pn.Prime) (rows cols : Nat) (mat : Mat) (ker : List Int)
+    (h : rightKerModPrime rows cols mat pn = .ok ker) :
+    ker.length = cols ∧ (∃ s < cols, ((ker.getD s 0 : Int) : ZMod pn) ≠ 0) ∧
+    ∀ i < rows, ∑ s ∈ Finset.range cols, ((get mat i s : Int) : ZMod pn) * ((ker.getD s 0 : Int) : ZMod pn) = 0 := by
+  haveI := Fact.mk hp
+  exact rightKerModPrime_sound pn rows cols mat ker h
+
+/-- the two instances used by the library -/
+theorem ker_4x4_mod_prime_sound (pn : Nat) (hp : pn.Prime) (mat : Mat) (ker : List Int)
+    (h : ker4x4ModPrime mat pn = .ok ker) :
+    ker.length = 4 ∧ (∃ s < 4, ((ker.getD s 0 : Int) : ZMod pn) ≠ 0) ∧
+    ∀ i < 4, ∑ s ∈ Finset.range 4, ((get mat i s : Int) : ZMod pn) * ((ker.getD s 0 : Int) : ZMod pn) = 0 :=
+  ker_mod_prime_sound pn hp 4 4 mat ker h
+theorem ker_4x5_mod_prime_sound (pn : Nat) (hp : pn.Prime) (mat : Mat) (ker : List Int)
+    (h : ker4x5ModPrime mat pn = .ok ker) :
+    ker.length = 5 ∧ (∃ s < 5, ((ker.getD s 0 : Int) : ZMod pn) ≠ 0) ∧
+    ∀ i < 4, ∑ s ∈ Finset.range 5, ((get mat i s : Int) : ZMod pn) * ((ker.getD s 0 : Int) : ZMod pn) = 0 :=
+  ker_mod_prime_sound pn hp 4 5 mat ker h
+example : ker4x4ModPrime [[1, 2, 3, 4], [2, 4, 6, 1], [0, 1, 1, 1], [3, 0, 2, 6]] 7 = .ok [5, 6, 0, 1] ∧
+    ker4x4ModPrime [[1, 0, 0, 0], [0, 1, 0, 0], [0, 0, 1, 0], [0, 0, 0, 1]] 7 = .fail ∧ Nat.Prime 7 := by
+  refine ⟨by decide, by decide, by decide⟩
+
+/-- `ibz_2x2_inv_mod` (positive modulus): the result is the inverse matrix modulo m with reduced entries -/
+theorem mat_2x2_inv_mod_sound (mn : Nat) (hm : mn ≠ 0) (a b c d : Int) (inv : Mat)
+    (h : inv2x2Mod [[a, b], [c, d]] mn = .ok inv) :
+    ∃ w x y z : Int, inv = [[w, x], [y, z]] ∧
+      (0 ≤ w ∧ w < mn) ∧ (0 ≤ x ∧ x < mn) ∧ (0 ≤ y ∧ y < mn) ∧ (0 ≤ z ∧ z < mn) ∧
+      ((a * w + b * y : Int) : ZMod mn) = 1 ∧ ((a * x + b * z : Int) : ZMod mn) = 0 ∧
+      ((c * w + d * y : Int) : ZMod mn) = 0 ∧ ((c * x + d * z : Int) : ZMod mn) = 1 :=
+  inv2x2Mod_sound mn hm a b c d inv h
+example : inv2x2Mod [[1, 2], [3, 5]] 8 = .ok [[3, 2], [3, 7]] ∧ inv2x2Mod [[1, 2], [2, 4]] 8 = .fail := by decide
 
 end SqiProps.C17
